@@ -18,7 +18,7 @@ META = {
     "rule": "a case = (program, call history); after every call the circuit the history continues with must denote the original state (R1 mixture of final states, "
             "and both real compilers on a deep copy) and, for non-rewriting calls, have an identical deep fingerprint (operations, registers, noise objects); "
             "non-trivial = history contains a rewriting or noise-deriving call followed by another call; distinct = distinct (program, history)",
-    "bounds": {"quick": "28 programs x all histories of <= 2 calls over a 15-call menu, 10 programs x all histories of 3 calls; targets: all graphs n<=3 x 3 forms x all orders of 3 calls",
+    "bounds": {"quick": "30 programs x all histories of <= 2 calls over a 16-call menu, 12 programs x all histories of 3 calls; targets: all graphs n<=3 x 3 forms x all orders of 3 calls",
                "thorough": "28 programs x all histories of <= 3 calls; targets n<=4"},
     "assumptions": ["python's copy.deepcopy is used by the harness (not by the subject) to take behaviour snapshots",
                     "compile under noise_simulation=True with the density-matrix back end exposes any noise object attached to an operation"],
@@ -48,6 +48,8 @@ PROGRAMS = [
     [["1", "H", "e", 0], ["CNOT", "e", 0, "p", 0], ["W", ["H", "P"], "e", 0], ["MCR", "e", 0, "p", 0, 0], ["W", ["P", "H"], "e", 0]],
     [["MZ", "e", 0, 0]], [["1", "H", "e", 0], ["MZ", "e", 0, 0], ["1", "H", "e", 0], ["MZ", "e", 0, 0]],
     [["1", "P", "p", 0], ["1", "P", "p", 0], ["1", "H", "p", 0], ["1", "P", "p", 0], ["1", "P", "p", 0]],
+    [["1", "H", "e", 0], ["W", ["H", "P"], "e", 0], ["CNOT", "e", 0, "p", 0], ["W", ["H", "P"], "p", 0]],
+    [["W", ["P", "H"], "p", 0], ["1", "X", "e", 0], ["W", ["P", "H"], "e", 0], ["1", "Z", "e", 0], ["CZ", "e", 0, "p", 0], ["W", ["P", "H"], "p", 0]],
 ]
 CALLS = ["copy", "unwrap", "group", "rmid", "noise_empty", "noise_real", "compile_stab", "compile_dm_noise", "compile_dm",
          "infidelity", "metrics", "compare_direct", "compare_iso", "export", "compile_twice", "compile_init"]
@@ -248,6 +250,10 @@ def run_history(acc, pi, hist):
                 continue
             acc.violation("raises", site, "raises-" + type(e).__name__, dict(case, step=k), "call returns", repr(e)[:200])
             return
+        mut = gq.check_shared_lists()
+        if mut is not None:
+            acc.violation("mutation", site, "shared-wrapper-operations-list-mutated", dict(case, step=k), "unchanged", mut)
+            return
         for sub, st, sym in ctx["viol"]:
             acc.violation(sub, st, sym, dict(case, step=k), "unchanged / identical", "differs")
         # the object passed in
@@ -352,7 +358,7 @@ PREDICATES = {"target_has_isolated_vertex": isolated}
 
 def shards(tier):
     out = []
-    deep = range(len(PROGRAMS)) if tier == "thorough" else [4, 6, 7, 8, 11, 12, 15, 16, 22, 24]
+    deep = range(len(PROGRAMS)) if tier == "thorough" else [4, 6, 7, 8, 11, 12, 15, 16, 22, 24, 28, 29]
     for pi in range(len(PROGRAMS)):
         out.append({"kind": "hist", "prog": pi, "depth": 2, "first": None})
     for pi in deep:
